@@ -13,7 +13,7 @@
 
 namespace sim {
 
-constexpr int kMaxTasks = 64;      // simulated threads per run, including threads the code under test creates
+constexpr int kMaxTasks = 250;     // simulated threads per run, including threads the code under test creates
 constexpr int kMaxCallerTasks = 16; // caller threads of a workload (the property speaks of 2..16)
 
 enum Strategy : int {
@@ -96,6 +96,7 @@ struct Config {
   Fault* faults = nullptr;  // `fired` is written back
   size_t n_faults = 0;
   size_t stack_bytes = 4u << 20;
+  bool adopt_threads = false; // take over the threads the previous run of this process left waiting (a worker pool)
   bool track_memory = true; // false: plain memory accesses are neither events nor checked (preparation runs)
   // optional caller-provided switch log (e.g. in shared memory, so that it survives a crash of
   // the process that runs the simulation); the count is kept in *sw_count
@@ -124,6 +125,7 @@ struct Result {
   uint64_t preempt_in_init = 0;     // switches away from a task that was inside a static initialiser
   uint64_t mutex_block = 0;
   uint64_t dynamic_threads = 0;     // threads created by the code under test inside the simulation
+  uint64_t adopted_threads = 0;     // threads taken over from the previous run of this process
   uint64_t daemon_threads = 0;      // of those: still waiting for something when every caller thread had finished
   uint64_t fault_fired[F_NKINDS] = {};
   uint64_t events_by_class[5] = {};
